@@ -107,4 +107,4 @@ func genCrypto(repo string) (*leanFile, error) {
 	return lf, nil
 }
 
-func init() { extraGens = append(extraGens, genCrypto) }
+func init() { extraGens = append(extraGens, namedGen{"Crypto.lean", genCrypto}) }
